@@ -19,6 +19,8 @@ fn arg(args: &[String], name: &str) -> Option<String> {
 fn main() {
     // panics inside the implementation are caught per op; keep them quiet
     std::panic::set_hook(Box::new(|_| {}));
+    // error texts must not carry backtraces (the sandbox exports RUST_BACKTRACE=1)
+    std::env::set_var("RUST_BACKTRACE", "0");
     let args: Vec<String> = std::env::args().collect();
     if args.len() < 2 {
         eprintln!("usage: harness <slice> [--seed N] [--tier quick|thorough] [--driver PATH] [--out FILE] [--replay OPSFILE]");
@@ -101,6 +103,18 @@ fn main() {
             "c03" => {
                 let (c, e) = slices::progs::cases(&mut rng, &tier);
                 (c, e, "grammar-generated structured programs (LET, PRINT ; ,, IF/THEN/ELSE with statement or line targets, GOTO, GOSUB/RETURN incl. runaway recursion, nested FOR/TO/STEP/NEXT incl. NEXT of an outer variable, READ/DATA/RESTORE, DIM and 1-3-dimensional cells, DEF FN with dynamic scoping, END, RND, forced runtime failures) compiled to numbered text; printed output and (error kind, line) compared with a reference interpreter over the syntax tree; non-trivial = more than two lines".into())
+            }
+            "c05" => {
+                let (c, e) = slices::docs::c05_cases(&mut rng, &tier);
+                (c, e, "documents mixing generated programs with numbered, unnumbered, blank, duplicated, emptied (`10`) and untokenizable lines, LF/CRLF/CR endings, non-ASCII text, statements of every kind, nesting 47..300 deep, plus the shapes of earlier defects; non-trivial = more than one line".into())
+            }
+            "c20" => {
+                let (c, e) = slices::docs::c20_cases(&mut rng, &tier);
+                (c, e, "the real abasic-lsp binary over stdio: per case one server, 1-8 open/change notifications with generated documents (the C05 shapes plus non-ASCII strings/comments, CRLF/CR, U+2028) each followed by a semanticTokens/full request".into())
+            }
+            "c06" => {
+                let (c, e) = slices::docs::c06_cases(&mut rng, &tier);
+                (c, e, "straight-line single lines (well- and ill-typed/ill-formed, 1-3 statements) analysed and executed from a fresh state; generated small programs analysed and executed under three seeds / input scripts".into())
             }
             "c14" => {
                 let (c, e) = slices::list::cases(&mut rng, &tier);
